@@ -307,6 +307,13 @@ def rule_flag_combiners(repo: Repo) -> List[Ob]:
             # a flag must reach every return that can follow the call; without returns, some reporting sink
             reached = [kind for cl, kind, e in names_per_sink if name in cl]
             cn = cg.node_of(call)
+            in_loop = any(isinstance(a, (ast.For, ast.While)) for a in ancestors(call))
+            ret_names = {e.id for kind, e in sinks if kind == "return" and isinstance(e, ast.Name)}
+            if in_loop and name in ret_names:
+                # x, flag = f(...) inside a loop with `flag` itself returned: every iteration overwrites the flag of the previous ones
+                obs.append(Ob("H2-flags", key, f.relpath, call.lineno, f.qualname, False,
+                              f"`{name}` is overwritten by each {call_name(call)}(...) in the loop and returned: only the last sub-result's exactness survives, a rounded earlier one is reported as exact"))
+                continue
             if rets:
                 ok = True
                 for cl, kind, e in names_per_sink:
